@@ -289,6 +289,9 @@ pub fn c17(out: &mut Vec<String>, rng: &mut Rng, tier: &str) {
             grid.push(1.0 - (10.0f64).powi(-4 - j));
             grid.push((10.0f64).powi(-j));
         }
+        for l in [1e-12f64, 1e-15, 3e-17, 1e-17, 1e-20, 1e-100, 1e-300] {
+            grid.push(l);
+        }
         grid.sort_by(|a, b| a.partial_cmp(b).unwrap());
         grid.dedup();
         for kind in 0..3u64 {
